@@ -287,7 +287,8 @@ def _child_tmpname(k):
         tmpfiles.get_tmp_filename()))
     t.start()
     t.join()
-    return names + box
+    import os
+    return [os.getpid()] + names + box
 
 
 def run_tmpnames():
@@ -305,13 +306,23 @@ def run_tmpnames():
     ctx = multiprocessing.get_context('fork')
     with ctx.Pool(3) as pool:
         res = pool.map(_child_tmpname, range(6), chunksize=1)
-    names = [main_name] + [n for r in res for n in r]
-    per_proc = {tuple(r) for r in res}
+    names = [main_name] + [n for r in res for n in r[1:]]
+    # names used by each process (a later thread of one process may reuse the
+    # identifier of a finished one - that is the same, sequential, user)
+    per_proc = {}
     bad = None
-    allnames = [main_name] + [n for r in per_proc for n in r]
-    if len(set(allnames)) != len(allnames):
-        bad = ('two processes/threads of one ddSMT run use the same candidate '
-               f'file: {sorted(set(n for n in allnames if allnames.count(n) > 1))}')
+    for pid, mainthread, other in res:
+        per_proc.setdefault(pid, set()).update((mainthread, other))
+        if mainthread == other:
+            bad = ('two threads of one process use the same candidate file: '
+                   f'{mainthread}')
+    owners = {}
+    for pid, ns in list(per_proc.items()) + [('main', {main_name})]:
+        for n in ns:
+            if n in owners and bad is None:
+                bad = ('two processes of one ddSMT run use the same '
+                       f'candidate file: {n} ({owners[n]} and {pid})')
+            owners[n] = pid
     if not all(n.endswith('.smt2') for n in names):
         bad = 'candidate file without the extension of the input file'
     try:
